@@ -30,7 +30,8 @@ def run(prop, tier, seed, replay=None):
     V.assumptions = [
         "Poly1Dom arithmetic (mul, divmod, mod, gcd remainder sequence, powmod, diff) is modelled as exact list-polynomial arithmetic (its own correctness is C08's); "
         "GFqDom / Modular coefficient arithmetic is modelled as GF(p^k) = F_p[x]/(irreducible() reported by the running code) (C03/C05)",
-        "IntFactorDom::set (prime divisors of q^n - 1 and of n) is modelled by trial division (C12)",
+        "IntFactorDom::set (prime divisors of q^n - 1 and of n) is modelled by trial division (C12); for q^n >= 2^64 the distinct primes of q^n - 1 are supplied by the harness "
+        "(hard-coded) and accepted by the driver only after each is verified prime by trial division and they factor q^n - 1 completely",
         "random choices (SplitFactor, find_irred_randomial, give_random_prim_root) are not reproduced: their outputs are decided by the certificate checkers only; "
         "termination of the random searches is probabilistic and not a theorem",
         "the theorems about the oracle, the checkers and the model of is_irreducible (bruteIrreducible_correct, factor_list_checker_decides, sqrfree_checker_sound, "
@@ -45,7 +46,13 @@ def run(prop, tier, seed, replay=None):
     if replay:
         with open(replay) as fh:
             lines = [l.split(" = ")[0] for l in json.load(fh).get("lines", []) if l]
-    res = flow.correspond(bins, "polyfactor", lines=lines, harness_args=[tier, str(seed)], timeout=1500)
+    if tier == "thorough" and not replay:
+        # exhaustive spaces once, under the sanitizers; the repository's own flags (R) on the quick generator
+        res = flow.correspond({"S": bins["S"]}, "polyfactor", lines=None, harness_args=[tier, str(seed)], timeout=3000)
+        resR = flow.correspond({"R": bins["R"]}, "polyfactor", lines=None, harness_args=["quick", str(seed)], timeout=1500)
+        res = dict(results=res["results"] + resR["results"], crashes=res["crashes"] + resR["crashes"])
+    else:
+        res = flow.correspond(bins, "polyfactor", lines=lines, harness_args=[tier, str(seed)], timeout=1500)
     counts = flow.decide(V, res, known=report.findings_for(prop), classify_known=classify_known,
                          key_of=lambda line: " ".join(line.split(" ", 2)[:1]))
     ops = {}
@@ -56,7 +63,11 @@ def run(prop, tier, seed, replay=None):
                        rule="every coefficient vector of degree <= d (all leading coefficients) and every monic one of degree d+1 over 18 (domain, field) "
                             "configurations through is_irreducible, is_irreducible2, CZfactor, sqrfree; products of equal-degree irreducibles, multiplicities "
                             "1,2,3,p,p+1,2p,p^2, degrees divisible by p, P(X^p), X^p-a, X^(q^j)-X, X^n-1; order/is_prim_root on every residue modulo "
-                            "irreducible moduli with q^n small and sampled beyond; every search for degrees 1..12; distinct = distinct (op, field, input)",
+                            "irreducible moduli with q^n small and sampled beyond; every search for degrees 1..12; products of k distinct irreducibles of equal degree d, "
+                            "k*d in {4,8,9,12,16,18}; the MOD-taking overloads and factor(factors,exp,P); two factorisations accumulated into the same lists; "
+                            "big fields q^n in [2^64, 2^128] over Modular<int64_t>, Modular<Integer>, GFqDom (GF(2)^65/67/128, GF(65537)^4, GF(2^31-1)^3, GF(4)^33, GF(3)^41, ...): "
+                            "moduli found by the library, primitive element found by the library, elements of known order g^(N/r), g^r; the primes of q^n-1 travel with the line "
+                            "and are re-verified by the driver (trial division, complete factorisation); distinct = distinct (op, field, input)",
                        extra={"per_operation": ops},
                        nontrivial=lambda l: True)
     V.finish()
